@@ -200,10 +200,11 @@ def run(prop, tier, rules, meta, repo="/repo"):
         "wall_s": round(wall, 2),
         "violations": len(violations),
     }
-    os.makedirs(os.path.join(VERIF, "evidence"), exist_ok=True)
-    with open(os.path.join(VERIF, "evidence", prop + ".json"), "w") as fh:
-        json.dump(ev, fh, indent=1)
-        fh.write("\n")
+    if not os.environ.get("VERIF_NO_EVIDENCE"):
+        os.makedirs(os.path.join(VERIF, "evidence"), exist_ok=True)
+        with open(os.path.join(VERIF, "evidence", prop + ".json"), "w") as fh:
+            json.dump(ev, fh, indent=1)
+            fh.write("\n")
     print("%s [%s]: %d obligations, %d hold, %d known finding site(s), %d audited, %d violation(s); %.1fs (extract %.1fs)" % (
         prop, tier, n_obl, n_holds, sum(1 for i in rep.instances if i["verdict"] == "known-finding"),
         len(audited_used), len(violations), wall, ctx.extract_s))
